@@ -58,7 +58,15 @@ class Repartition(Expr):
         ):
             new_partitions = self.operand("new_partitions")
             if isinstance(new_partitions, Callable):
-                return new_partitions(self.frame.npartitions)
+                new_partitions = new_partitions(self.frame.npartitions)
+            if (
+                type(self) is Repartition
+                and new_partitions > self.frame.npartitions
+                and self.frame.known_divisions
+            ):
+                # The interpolated divisions are de-duplicated when lowering,
+                # which can yield fewer partitions than requested
+                return super().npartitions
             return new_partitions
         return super().npartitions
 
